@@ -107,6 +107,11 @@ def check(pid, tier, only=None):
                     broken.append("%s: %s" % (o["name"], r.reason))
                 elif r.status == "failure":
                     rec["failed_checks"] = r.failed
+                    kf = next((k for k in known if k["kind"] == "known" and k.get("obligation") == o["name"]), None)
+                    if kf:
+                        kf["seen"] = True
+                        rec["triage"] = "known-finding"
+                        continue
                     v = triage_kani(pid, o, r, info, known)
                     rec["triage"] = v["kind"]
                     if v["kind"] == "violation":
@@ -130,6 +135,11 @@ def check(pid, tier, only=None):
                            source_sha=fr.get("source_sha"), rules=fr.get("rules"), source=fr.get("source"))
                 if fr["status"] == "failure":
                     rec["errors"] = fr["errors"]
+                    kf = next((k for k in known if k["kind"] == "known" and k.get("obligation") == o["name"]), None)
+                    if kf:
+                        kf["seen"] = True
+                        rec["triage"] = "known-finding"
+                        continue
                     v = triage_verus(pid, o, fr, ures)
                     rec["triage"] = v["kind"]
                     violations.append(v)
@@ -161,6 +171,8 @@ def check(pid, tier, only=None):
     for k in known:
         if k["kind"] == "known" and k.get("seen"):
             print("KNOWN-FINDING: property=%s %s" % (pid, k["text"]))
+        elif k["kind"] == "known" and k.get("obligation") and not only and any(r.get("name") == k["obligation"] and r.get("status") == "success" for r in records):
+            log("note: known finding %s no longer fails on this tree (entry can be turned into a fixed: line)" % k["obligation"])
     rc = EXIT_OK
     if violations:
         rc = EXIT_VIOLATION
@@ -174,8 +186,9 @@ def check(pid, tier, only=None):
     for b in broken:
         log("UNDECIDED: " + b)
     n_ok = sum(1 for r in records if r.get("status") == "success")
-    log("%s %s: %d/%d obligations discharged, %d violation(s), %d undecided, %.0fs" % (
-        pid, tier, n_ok, sum(1 for r in records if r["engine"] in ("kani", "verus")), len(violations), len(broken), wall))
+    n_kf = sum(1 for r in records if r.get("triage") == "known-finding")
+    log("%s %s: %d/%d obligations discharged, %d violation(s), %d known finding(s), %d undecided, %.0fs" % (
+        pid, tier, n_ok, sum(1 for r in records if r["engine"] in ("kani", "verus")) - n_kf, len(violations), n_kf, len(broken), wall))
     return rc
 
 
@@ -230,7 +243,9 @@ def replay(path):
 
 
 def write_evidence(pid, tier, seed, mod, records, violations, broken, kani_meta, wall, extras=None):
-    obl = [r for r in records if r["engine"] in ("kani", "verus")]
+    obl_all = [r for r in records if r["engine"] in ("kani", "verus")]
+    kfs = [r for r in obl_all if r.get("triage") == "known-finding"]
+    obl = [r for r in obl_all if r.get("triage") != "known-finding"]
     complete = [r for r in obl if r.get("complete", True)]
     bounded = [r for r in obl if not r.get("complete", True)]
     trusted = list(getattr(mod, "TRUSTED", []))
@@ -260,6 +275,7 @@ def write_evidence(pid, tier, seed, mod, records, violations, broken, kani_meta,
             "samples": [{k: r.get(k) for k in ("name", "engine", "status", "clause", "functions", "solver_s", "wall_s", "checks", "covers_satisfied", "stubs", "source_sha", "rules", "bound") if r.get(k) not in (None, [], "")} for r in obl],
             "units": [r for r in records if r["engine"] == "verus-unit"],
             "undecided": broken,
+            "known_findings_reported": [{"name": r["name"], "clause": r.get("clause")} for r in kfs],
             "not_under_contract": getattr(mod, "NOT_UNDER_CONTRACT", []),
         },
         "assumptions": list(getattr(mod, "ASSUMPTIONS", [])),
